@@ -527,4 +527,63 @@ theorem ceil_eq {T n : Int} (hn : 0 < n) : (T + n - 1) / n = (T - 1) / n + 1 := 
   have e : T + n - 1 = (T - 1) + 1 * n := by ring
   rw [e, Int.add_mul_ediv_right _ _ (ne_of_gt hn)]
 
+/-! ## lists: folds as sums, one replaced entry, sums of squared deviations -/
+
+theorem foldl_add_map_real {β : Type} (f : β → ℝ) (l : List β) (a : ℝ) :
+    l.foldl (fun s v => s + f v) a = a + (l.map f).sum := by
+  induction l generalizing a with
+  | nil => simp
+  | cons y l ih => simp [ih, add_assoc]
+
+/-- replacing the `j`-th entry of a list by `y`: the sum of `f` over the list depends on `y` only through `f y` -/
+theorem hasDerivAt_sum_map_set (f : ℝ → ℝ) (f' y0 : ℝ) (hf : HasDerivAt f f' y0) (xs : List ℝ) (j : Nat)
+    (hj : j < xs.length) :
+    HasDerivAt (fun y => ((xs.set j y).map f).sum) f' y0 := by
+  induction xs generalizing j with
+  | nil => simp at hj
+  | cons x xs ih =>
+    cases j with
+    | zero =>
+      simp only [List.set_cons_zero, List.map_cons, List.sum_cons]
+      exact hf.add_const _
+    | succ j =>
+      simp only [List.set_cons_succ, List.map_cons, List.sum_cons]
+      exact (ih j (by simpa using hj)).const_add _
+
+/-- derivative of a sum of squared deviations of `h i y` from reference values -/
+theorem hasDerivAt_sum_sq_zipWith {ι : Type} (h : ι → ℝ → ℝ) (h' : ι → ℝ) (y0 : ℝ)
+    (hh : ∀ i, HasDerivAt (h i) (h' i) y0) (is : List ι) (ref : List ℝ) :
+    HasDerivAt (fun y => ((List.zipWith (· - ·) (is.map fun i => h i y) ref).map (fun v => v * v)).sum)
+      ((List.zipWith (fun i r => 2 * (h i y0 - r) * h' i) is ref).sum) y0 := by
+  induction is generalizing ref with
+  | nil => simpa using hasDerivAt_const y0 (0 : ℝ)
+  | cons i is ih =>
+    cases ref with
+    | nil => simpa using hasDerivAt_const y0 (0 : ℝ)
+    | cons r ref =>
+      simp only [List.map_cons, List.zipWith_cons_cons, List.sum_cons]
+      have h1 : HasDerivAt (fun y => h i y - r) (h' i) y0 := (hh i).sub_const r
+      refine ((h1.mul h1).add (ih ref)).congr_deriv ?_
+      ring
+
+/-- a sum over `range n` of terms that read the `i`-th deviation by index, as a `zipWith` sum -/
+theorem map_range_getD_zipWith (H : Nat → ℝ) (F : ℝ → Nat → ℝ) (ref : List ℝ) (n : Nat) (hr : ref.length = n) :
+    (List.range n).map (fun i => F ((List.zipWith (· - ·) ((List.range n).map H) ref).getD i 0) i) =
+      List.zipWith (fun i r => F (H i - r) i) (List.range n) ref := by
+  apply List.ext_getElem
+  · simp [hr]
+  · intro i h1 h2
+    have hi : i < n := by simpa using h1
+    simp [List.getD_eq_getElem?_getD, hi, hr]
+
+
+theorem zipWith_sum_const_mul {ι : Type} (f g : ι → ℝ → ℝ) (c : ℝ) (h : ∀ i r, g i r = c * f i r)
+    (l1 : List ι) (l2 : List ℝ) : (List.zipWith g l1 l2).sum = c * (List.zipWith f l1 l2).sum := by
+  induction l1 generalizing l2 with
+  | nil => simp
+  | cons i l1 ih =>
+    cases l2 with
+    | nil => simp
+    | cons r l2 => simp only [List.zipWith_cons_cons, List.sum_cons, ih, h]; ring
+
 end Cv.C06
